@@ -132,6 +132,7 @@ func (m *refME) recompute() {
 }
 
 type gmeCfg struct {
+	Setup    []string // non-initial root
 	Name     string
 	DialFail bool
 	Init     int // index into the menu
@@ -213,6 +214,12 @@ func newGMEWorld(s *vsched.Sched, cfg gmeCfg, menu []gmeOpt) *gmeWorld {
 	}
 	w.applyRef(o)
 	w.afterOp(true)
+	for _, op := range cfg.Setup {
+		if w.poisoned {
+			break
+		}
+		w.Do(op)
+	}
 	return w
 }
 
@@ -318,6 +325,9 @@ func (w *gmeWorld) Ops() []string {
 			ops = append(ops, fmt.Sprintf("reupdate(%d)", i))
 		}
 	}
+	if w.cfg.D > 0 {
+		ops = append(ops, fmt.Sprintf("adv(%d)", w.cfg.D/time.Millisecond))
+	}
 	if w.dialFail {
 		ops = append(ops, "dialFail(off)")
 	} else {
@@ -371,6 +381,13 @@ func (w *gmeWorld) Do(op string) {
 		w.doUpdate(o, opts)
 	case "dialFail":
 		w.dialFail = args[0] == "on"
+	case "adv":
+		var n int
+		fmt.Sscanf(args[0], "%d", &n)
+		w.s.AdvanceBy(time.Duration(n)*time.Millisecond + 10*time.Microsecond)
+		w.s.WaitQuiescent()
+		w.nontriv = true
+		w.afterOp(false)
 	case "close":
 		var err error
 		th := w.s.Go("close", func() { err = w.gme.Close() })
@@ -472,7 +489,7 @@ func (w *gmeWorld) doUpdate(o gmeOpt, reuse *GCPMultiEndpointOptions) {
 			w.violate("C15", "C15.G2", "dropped pool not closed exactly once", fmt.Sprintf("%s closed %d times", e, cc.CloseCount))
 		}
 	}
-	if early != nil {
+	if early != nil && w.cfg.D == 0 {
 		exp := w.expectedRouting()
 		if d := diffRouting(exp, early); d != "" {
 			w.violate("C15", "C15.G2", "routing right after the update does not reflect the pools' connectivity", d)
@@ -556,6 +573,27 @@ func (w *gmeWorld) afterOp(updated bool) {
 	}
 	got := w.routing()
 	if w.poisoned {
+		return
+	}
+	if w.cfg.D > 0 {
+		// inner multi-endpoints with a switching delay: the exact current endpoint
+		// is C13/C14's business; here every call must still reach an open pool of
+		// an endpoint that belongs to the selected multi-endpoint
+		for _, name := range []string{"", "d", "r", "x"} {
+			m, ok := w.mes[name]
+			if !ok || name == "" {
+				m = w.mes[w.def]
+			}
+			for _, stream := range []bool{false, true} {
+				k := fmt.Sprintf("ctx=%q stream=%v", name, stream)
+				tgt := got[k]
+				if strings.Contains(tgt, "CLOSED") {
+					w.violate("C16", "C16.A2", "call routed to a closed pool", k+" -> "+tgt)
+				} else if !m.in(tgt) {
+					w.violate("C15", "C15.G1", "call routed to an endpoint outside the selected MultiEndpoint", fmt.Sprintf("%s -> %q, list %v", k, tgt, m.list))
+				}
+			}
+		}
 		return
 	}
 	if d := diffRouting(w.expectedRouting(), got); d != "" {
@@ -675,6 +713,12 @@ func checkGME(c *vsched.RunCtx, prop string) {
 			}
 		}
 	}
+	for _, i := range []int{3, 1} {
+		cfgs = append(cfgs, gmeCfg{Name: "delay=5ms init=" + menu[i].Name, Init: i, Prop: prop, D: 5 * time.Millisecond})
+		// root: the second endpoint is current and a delayed switch to the first one is pending
+		cfgs = append(cfgs, gmeCfg{Name: "delay=5ms root=switch-pending init=" + menu[i].Name, Init: i, Prop: prop, D: 5 * time.Millisecond,
+			Setup: []string{"poolState(e2,READY)", "poolState(e1,READY)"}})
+	}
 	if c.Replay == nil || c.Replay.Harness == "sched:gme-update" {
 		runGMEDrivers(c, false)
 		if c.Replay != nil {
@@ -721,6 +765,10 @@ func checkGME(c *vsched.RunCtx, prop string) {
 	idx, sub, nsub := c.Split(len(cfgs))
 	for _, i := range idx {
 		cfg := cfgs[i]
+		depth := depth
+		if cfg.D > 0 {
+			depth-- // the delay configurations have a larger alphabet (clock advances)
+		}
 		res := vsched.BFS(vsched.BFSOpts{Name: "gme", Config: cfg.Name, Depth: depth, DevPerOp: 1, Deadline: c.Deadline, Shard: sub, NShards: nsub},
 			func(s *vsched.Sched) vsched.World { return newGMEWorld(s, cfg, menu) })
 		c.Add(res)
